@@ -25,7 +25,7 @@ RULES = {
     "C08": "well-formed processor (capabilities may dead-end); non-trivial = a stall error, or a run of at least 3 cycles; distinct = sha1",
 }
 CAPS = ["ALU", "MEM", "BR"]
-FAMILIES = ["parts", "bypass", "widechain", "loader", "small", "deadend", "wide", "illformed", "parts", "widechain", "bypass", "large"]
+FAMILIES = ["parts", "bypass", "widechain", "loader", "small", "deadend", "wide", "illformed", "parts", "widechain", "bypass", "large", "deepchain"]
 TIMEOUT = 20.0
 
 
@@ -44,6 +44,18 @@ def gen_units(rng, family):
         for u in range(n):
             units[u] = dict(name="%s%d" % ("cmxq"[u], rng.randint(0, 9)), width=rng.randint(2, 4), caps=["ALU"],
                             rl=(u == ra), wl=(u == wb), acl=(["ALU"] if rng.random() < 0.1 else []))
+        return units, {(u, u + 1) for u in range(n - 1)}, ["ALU"]
+    if family == "deepchain":
+        # scale: a pipeline of 7-13 narrow stages (read lock early, write lock at the end); with a serialised program
+        # (every instruction reads its predecessor's destination) the run is about depth x instructions cycles long
+        n = rng.randint(7, 13)
+        units = {}
+        for u in range(n):
+            units[u] = dict(name="s%02d%s" % (u, rng.choice(["", "x"])), width=rng.randint(1, 2), caps=["ALU"],
+                            rl=(u == (0 if rng.random() < 0.5 else 1)), wl=(u == n - 1), acl=[])
+        if sum(1 for d in units.values() if d["rl"]) != 1:
+            for u in range(n):
+                units[u]["rl"] = (u == 0)
         return units, {(u, u + 1) for u in range(n - 1)}, ["ALU"]
     if family == "bypass":
         # a chain of 4-7 units with forward skip connections spanning two or more stages (unequal-length routes between
@@ -206,7 +218,7 @@ def build_from_loader(rng, units, edges):
         return None
 
 
-def gen_prog(rng, incaps, thorough, dense=False, long_prog=False):
+def gen_prog(rng, incaps, thorough, dense=False, long_prog=False, serial=False):
     """raw instruction specs (sources as supplied — possibly repeated, destination, capability); the real
     `HwInstruction` objects are built from the protocol form in `evaluate`"""
 
@@ -220,6 +232,14 @@ def gen_prog(rng, incaps, thorough, dense=False, long_prog=False):
             prog.append((list(srcs), rng.choice(regs), incaps[0] if incaps else "ALU"))
         return prog
 
+    if serial:
+        n = rng.randint(3, 12)
+        prog = [([], "R0", incaps[0] if incaps else "ALU")]
+        for k in range(1, n):
+            prog.append((["R%d" % (k - 1)], "R%d" % k, incaps[0] if incaps else "ALU"))
+        if rng.random() < 0.3:
+            prog.append((["R0"], "R1", "NOSUCH"))     # an unsupported tail: a genuine stall after a long run
+        return prog
     if long_prog:
         n = rng.randint(12, 30)
         regs = ["R%d" % i for i in range(rng.randint(3, 7))]
@@ -443,7 +463,8 @@ def gen_input(case, tier="quick"):
         proc = build_from_parts(rng, units, set())
     incaps = sorted({c for m in list(proc.in_ports) + list(proc.in_out_ports) for c in m.capabilities})
     prog = gen_prog(rng, incaps, tier == "thorough", dense=(family in ("widechain", "bypass") and rng.random() < 0.8),
-                    long_prog=(family == "large" or rng.random() < 0.03))
+                    long_prog=(family == "large" or rng.random() < 0.03),
+                    serial=(family == "deepchain" and rng.random() < 0.85))
     return family, {"proc": proc_json(proc), "prog": intended_prog_json(rng, prog)}
 
 
